@@ -43,7 +43,7 @@ class C06(Check):
     level_text = ('Seeded search over table-building histories interleaved with request streams; per table the full '
                   'paths x methods catalogue is swept at least once. The table/history space is sampled.')
     level_note = 'Trusted: the sequential dispatch model (~40 lines) and the catalogue match relation.'
-    required_probes = ('concurrent-requests', 'add-concurrent-with-request', '405-with-allow', 'fallthrough-then-later-route', 'fallthrough-last-error-wins', 'add-at-index',
+    required_probes = ('concurrent-requests', 'add-concurrent-with-request', '405-with-allow', 'fallthrough-then-later-route', 'fallthrough-last-error-wins', 'add-at-index', 'add-at-index-below-range', 'add-at-negative-index',
                        'head-on-get-route', 'lowercase-method', 'redirect-302', 'strict-mode')
 
     def gen_entry(self, rng, mode, k):
@@ -65,7 +65,8 @@ class C06(Check):
         for _ in range(rng.randint(6, 40)):
             r = rng.random()
             if r < 0.15 and n_routes < 6:
-                idx = rng.choice([None, None] + list(range(n_routes + 1)))
+                # any integer, with list.insert() meaning: also negative, and out of range on either side
+                idx = rng.choice([None, None, None] + list(range(n_routes + 1)) + list(range(-n_routes - 3, 0)) + [n_routes + 2])
                 op = {'op': 'add', 'entry': self.gen_entry(rng, mode, k), 'index': idx}
                 if rng.random() < 0.35:
                     # the table is extended WHILE a request is being served on another thread
@@ -153,6 +154,10 @@ class C06(Check):
                 if idx is None:
                     table.append(e)
                 else:
+                    if idx < -len(table) and len(table) >= 2:
+                        res.probe('add-at-index-below-range')
+                    if idx < 0:
+                        res.probe('add-at-negative-index')
                     table.insert(idx, e)
                     res.probe('add-at-index')
                 res.ev(step, 'add', e['pattern'], idx)
